@@ -148,6 +148,7 @@ def evsOf (ps : PState) (cmd : List String) (resp : List Driver.Line) : Option (
       let buf := ps.nbuf
       let ps := { ps with nbuf := ps.nbuf + 1 }
       if rk == "pending" then pure ([.readStart sn buf len, .readPending sn], ps)
+      else if rk == "none" then pure ([.readStart sn buf len, .readNone sn], ps)
       else do
         let d ← (out "done").bind done?
         pure ([.readStart sn buf len, d], ps)
